@@ -394,6 +394,12 @@ class Explorer:
         out = []
         for pa in sub.run():
             if pa.outcome == "raise":
+                # the callee raises on this path: so does the caller (nothing in the repository catches around followed calls)
+                ns = st.copy()
+                ns.events.extend(pa.state.events)
+                ns.facts = dict(pa.state.facts)
+                ns.assumptions.extend(pa.state.assumptions)
+                out.append((ns, ("__raise__", pa.value if pa.value is not None else T.NONE, pa.node)))
                 continue
             ns = st.copy()
             ns.events.extend(pa.state.events)
@@ -412,12 +418,12 @@ class Explorer:
             return [(st, None)]
         followed = self._follow_call(v, st)
         if followed is not None:
-            return [(ns, None) for ns, _ in followed]
+            return [(ns, self._raised(val)) for ns, val in followed]
         if isinstance(v, ast.YieldFrom):
             # `yield from self.__helper(...)` of a generator helper that is new: its yields are this generator's yields
             spliced = self._follow_call(v.value, st, allow_gen=True)
             if spliced is not None:
-                return [(ns, None) for ns, _ in spliced]
+                return [(ns, self._raised(val)) for ns, val in spliced]
         n = self.normalizer(st)
         if isinstance(v, (ast.Yield, ast.YieldFrom)):
             t = n.norm(v)
@@ -491,6 +497,9 @@ class Explorer:
         if followed is not None:
             out = []
             for ns, val in followed:
+                if self._raised(val) is not None:
+                    out.append((ns, self._raised(val)))
+                    continue
                 ns.add(Event("assign", s, val))
                 for tg in s.targets:
                     self._assign_target(tg, val, ns, s)
@@ -548,7 +557,7 @@ class Explorer:
     def x_Return(self, s, st):
         followed = self._follow_call(s.value, st) if s.value is not None else None
         if followed is not None:
-            return [(ns, ("return", val, s)) for ns, val in followed]
+            return [(ns, self._raised(val) or ("return", val, s)) for ns, val in followed]
         v = self.normalizer(st).norm(s.value) if s.value is not None else T.NONE
         if self.split_returns and v[0] == "select":
             out = []
@@ -562,6 +571,13 @@ class Explorer:
                     out.append((cur, ("return", val, s)))
             return out
         return [(st, ("return", v, s))]
+
+    @staticmethod
+    def _raised(val):
+        """the control outcome for a followed call that raised (see _follow_call), else None"""
+        if isinstance(val, tuple) and len(val) == 3 and val[0] == "__raise__":
+            return ("raise", val[1], val[2])
+        return None
 
     def x_Raise(self, s, st):
         v = self.normalizer(st).norm(s.exc) if s.exc is not None else T.NONE
